@@ -178,9 +178,16 @@ func frameObligations(w *World, prop string) []*FrameOb {
 						// mutable kinds (maps, slices, pointers, structs with such) are shared state even if never reassigned
 						if obj := info.Defs[n]; obj != nil {
 							switch obj.Type().Underlying().(type) {
-							case *types.Map, *types.Slice, *types.Chan:
+							case *types.Map, *types.Slice, *types.Chan, *types.Pointer:
 								okInit = false
 								detail = "package-level " + obj.Type().String() + " is shared mutable state"
+							case *types.Struct, *types.Array:
+								// a value that is only read is fine; one whose address escapes (&v, or a
+								// pointer-receiver method call on it) can be written through the alias
+								if site := w.addressTaken(obj); site != "" {
+									okInit = false
+									detail = "address of package-level " + n.Name + " is taken at " + site + ": shared mutable state"
+								}
 							}
 						}
 						out = append(out, &FrameOb{Name: "frame.pkgvar[" + n.Name + "]", OK: okInit, Detail: detail, Sites: []string{w.eff.pos(n)}})
@@ -953,4 +960,62 @@ func (ia *initAnalysis) summary(key string) *initSummary {
 	_ = anyReturn
 	ia.memo[key] = s
 	return s
+}
+
+// addressTaken: position of the first place where the address of package-level variable obj is taken
+// (&obj, &obj.f, obj[:] of an array, or a pointer-receiver method called on it); "" when there is none.
+func (w *World) addressTaken(obj types.Object) string {
+	info := w.prog.Info
+	root := func(e ast.Expr) types.Object {
+		for {
+			switch x := ast.Unparen(e).(type) {
+			case *ast.Ident:
+				return info.Uses[x]
+			case *ast.SelectorExpr:
+				if sel := info.Selections[x]; sel != nil && sel.Indirect() {
+					return nil
+				}
+				e = x.X
+			case *ast.IndexExpr:
+				if _, ok := info.TypeOf(x.X).Underlying().(*types.Array); !ok {
+					return nil
+				}
+				e = x.X
+			default:
+				return nil
+			}
+		}
+	}
+	site := ""
+	for _, f := range w.prog.Files {
+		ast.Inspect(f, func(m ast.Node) bool {
+			if site != "" {
+				return false
+			}
+			switch x := m.(type) {
+			case *ast.UnaryExpr:
+				if x.Op == token.AND && root(x.X) == obj {
+					site = w.eff.pos(x)
+				}
+			case *ast.SliceExpr:
+				if _, ok := info.TypeOf(x.X).Underlying().(*types.Array); ok && root(x.X) == obj {
+					site = w.eff.pos(x)
+				}
+			case *ast.CallExpr:
+				if se, ok := ast.Unparen(x.Fun).(*ast.SelectorExpr); ok {
+					if sel := info.Selections[se]; sel != nil && sel.Kind() == types.MethodVal {
+						if fn, ok := sel.Obj().(*types.Func); ok {
+							if recv := fn.Type().(*types.Signature).Recv(); recv != nil {
+								if _, ptr := recv.Type().Underlying().(*types.Pointer); ptr && root(se.X) == obj {
+									site = w.eff.pos(x)
+								}
+							}
+						}
+					}
+				}
+			}
+			return true
+		})
+	}
+	return site
 }
